@@ -36,7 +36,12 @@ def run(ctx, spec, rng):
 
 
 def arr(m):
+    """A returned measurement element as a complex ndarray (picos variables / constants, cvxopt dense or sparse matrices, arrays)."""
     v = m.value if hasattr(m, "value") else m
+    if type(v).__module__.startswith("cvxopt"):
+        import cvxopt
+
+        v = cvxopt.matrix(v)  # sparse -> dense
     return np.array(v, dtype=complex)
 
 
@@ -118,6 +123,11 @@ def check_min_error(ctx, e, pd, label="O1"):
     field = "complex" if e["cplx"] else "real"
     sig = (e["n"], d, e["form"], field, e["pk"], pd)
     nt = e["cplx"] or e["form"].startswith("dm") or e["pk"] != 0
+    if e["pk"] == 0:  # the prior omitted means the uniform prior over the n states
+        res0 = _solve(ctx, state_distinguishability, _fresh(e["inp"]), strategy="min_error", primal_dual=pd)
+        if res0 is not None:
+            ctx.check("O2:>=max-prior", abs(float(np.real(res0[0])) - val) <= TOLV, dev=abs(float(np.real(res0[0])) - val), tol=TOLV, sig=sig + ("prior-omitted", e["n"] == d), nt=e["n"] != d,
+                      mech="state_distinguishability:prior-omitted-differs-from-uniform-prior", detail={"n": e["n"], "d": d, "omitted": res0[0], "uniform": val})
     neg, comp, hdev = certs.povm_defect(ms, d)
     ctx.check("O1:povm-valid", max(neg, comp, hdev) <= TOLP, dev=max(neg, comp, hdev), tol=TOLP, sig=sig, nt=nt, mech=f"state_distinguishability:invalid-povm[{pd}]",
               detail={"neg": neg, "completeness": comp, "herm": hdev})
